@@ -21,7 +21,7 @@ CFG = {
             "anything but the constructor line.",
     "trusted_base": [
         "vaxis.Characters (uniseg segmentation, widths) is a parameter of the pager model: the harness passes the characters",
-        "Window.Println / SetCell / Fill (clipping, C11) are not re-modelled here: the list model prints item i on row i when i < height",
+        "Window.Println / SetCell / Fill (clipping, C11) are not re-modelled here: the two facts used (a Println row >= height draws nothing; a SetCell outside the window changes nothing) are proved from C11's model (simple_list_println_rows, setcell_outside_ignored)",
         "uint is 64 bit (Go on amd64/arm64) in the Dynamic list model",
         "for Dynamic.Draw / insertChildren / the event switches the step from the regenerated statement skeleton (Gen/DynSkel.lean) to the executable model (Model/DynList.lean) is a transcription pinned by skeleton_*/facts_* theorems and the correspondence run (the small methods are interpreted: interp_*)",
         "Props/C19.lean imports Spec/Surface.lean and Model/Window.lean (C14's spec of the painter's algorithm) for dyn_selected_on_top",
